@@ -97,6 +97,15 @@ End Run.
 (* every call has returned *)
 Definition zquiescent (z : rsys) : Prop := forall t, z_thr z t = TIdle.
 
+(* a checkable form: the threads a trace mentions are idle (the others never left [TIdle]) *)
+Definition label_thread (l : rlabel) : nat :=
+  match l with LInv t _ | LBegin t | LStep t | LRet t => t end.
+
+Definition idleb (x : rth) : bool := match x with TIdle => true | _ => false end.
+
+Definition zquiet (tr : list rlabel) (z : rsys) : bool :=
+  forallb (fun l => idleb (z_thr z (label_thread l))) tr.
+
 (* the operations invoked along a trace *)
 Definition invoked (tr : list rlabel) : list op :=
   flat_map (fun l => match l with LInv _ o => [o] | _ => [] end) tr.
